@@ -26,7 +26,7 @@ var longUni = "ééééééééééé" // 11 characters, 22 bytes: the threshold
 
 // strings that collide with what the serializer itself emits, plus ordinary ones
 var genStrs = []string{"", "a", "b", "k", "1", "90", "AQID", "default", "Default", "Sensitive", "Hash", "Binary", "Type", "Regexp",
-	"__ptype", "__pvalue", "__pref", longStr, longUni, "Sensitive [value redacted]", "é", "Verif::Pair", "Verif::Ints"}
+	"__ptype", "__pvalue", "__pref", longStr, longUni, "Sensitive [value redacted]", "é", "Verif::Pair", "Verif::Ints", "0-00:01:30.0"}
 var genInts = []int64{0, 1, -1, 42, math.MaxInt64, math.MinInt64}
 var genFloats = []float64{0, 1, -1.5, 1e21, math.SmallestNonzeroFloat64, math.Inf(1)}
 var genBins = [][]byte{{1, 2, 3}, {}, {0xff}, []byte("0123456789abcdefghijklmnop")}
@@ -35,7 +35,7 @@ var leafSrc = map[string][]string{
 	"rx":  {"a.*b", "", "[a-z]+/x", `\d+`},
 	"sv":  {"1.2.3", "1.0.0-rc1+b5", "0.0.0"},
 	"svr": {">=1.0.0 <2.0.0", "1.x", "~1.2.3", ">=1.0.0"},
-	"ts":  {"0", "90", "-5", "86400"},
+	"ts":  {"0-00:00:00.0", "0-00:01:30.0", "-0-00:00:05.0", "1-00:00:00.0", "0-00:00:01.5", "0-00:00:00.05", "-0-00:00:00.000000001"},
 	"tm":  {"2020-01-02T03:04:05.000006000 UTC", "1970-01-01T00:00:00.000000000 UTC"},
 	"uri": {"http://example.com/a?b=c#d", "file:///tmp/x", "urn:isbn:1", "http://user:pw@example.com:8080/p%20q?x=1&y=%2F#f"},
 	"ty": {"String", "Integer[1, 2]", "Array[String]", "Optional[Hash[String, Integer]]", "Type[Integer]",
@@ -57,7 +57,7 @@ var codecExtra = [][2]string{
 	{"rx", `a/b`}, {"rx", `\\/`}, {"rx", "(?i)x"}, {"rx", "é+"}, {"rx", "a\nb"}, {"rx", "^$"}, {"rx", `[/]`}, {"rx", `'"`},
 	{"uri", "http://user:pw@example.com:8080/p%20q?x=1&y=%2F#f"}, {"uri", "http://[::1]:80/"}, {"uri", "mailto:a@b.c"},
 	{"uri", "/relative/path"}, {"uri", "?q"}, {"uri", "http://example.com/é"}, {"uri", "a:b:c"},
-	{"ts", "9223372036"}, {"ts", "-9223372036"},
+	{"ts", "106751-23:47:16.854775807"}, {"ts", "-106751-23:47:16.854775807"},
 	{"tm", "0001-01-01T00:00:00.000000000 UTC"}, {"tm", "9999-12-31T23:59:59.999999999 UTC"}, {"tm", "2020-02-29T12:00:00.000000000 UTC"},
 	{"ty", "Callable[[String, Integer], Float]"}, {"ty", "Struct[{Optional['a'] => String, 'b' => Integer}]"}, {"ty", "Tuple[String, Integer, 1, 3]"},
 	{"ty", `Enum['it\'s', 'a\\b']`}, {"ty", `Pattern[/a\/b/]`}, {"ty", "String[1, 2]"}, {"ty", "Float[1.5, 2.5]"}, {"ty", "Sensitive[String]"},
@@ -530,7 +530,14 @@ func gen(g *core.G) {
 	}
 	r := g.Rng
 	for i := 0; i < 300*g.Scale; i++ {
-		g.Emit("@codec ts " + h(strconv.FormatInt(r.Int63n(4000000000)-2000000000, 10)))
+		span := time.Duration(r.Int63n(4000000000)-2000000000) * time.Second
+		switch r.Intn(3) {
+		case 0:
+			span += time.Duration(r.Int63n(1000000000))
+		case 1:
+			span += time.Duration(r.Int63n(1000)) * time.Millisecond
+		}
+		g.Emit("@codec ts " + h(fmtSpan(span)))
 		t := time.Unix(r.Int63n(8000000000)-4000000000, int64(r.Intn(1000000000))).UTC()
 		g.Emit("@codec tm " + h(t.Format("2006-01-02T15:04:05.000000000")+" UTC"))
 		ver := fmt.Sprintf("%d.%d.%d", r.Intn(30), r.Intn(30), r.Intn(30))
